@@ -132,6 +132,8 @@ class Scheduler:
                 v = r.randint(0, 7)
             elif ty == "strlist":
                 v = tuple("i%d" % r.randint(0, 9) for _ in range(r.randint(0, 3)))
+            elif ty == "font":
+                v = dict(model.FONT_DEFAULT, family=r.choice(["Sans", "Serif", "Mono", ""]), pointSize=r.randint(6, 30), bold=r.chance(0.5))
             else:
                 raise ValueError(ty)
             if v != cur:
@@ -547,6 +549,8 @@ def value_token(a):
         return gen.tok(a, "string")
     if isinstance(a, tuple):
         return gen.tok(a, "strlist")
+    if isinstance(a, dict):
+        return gen.tok(a, "font")
     raise ValueError(repr(a))
 
 
